@@ -33,11 +33,18 @@ func DrawDAG(r *rng.R) *Entry {
 		return nm
 	}
 	nn := r.Range(2, 6)
+	if r.Chance(1, 40) {
+		nn = []int{33, 65, 70, 130, 260}[r.Intn(5)] // long graphs: node-indexed tables, bit sets, per-node caches
+	}
 	for i := 0; i < nn; i++ {
 		out := fmt.Sprintf("v%d", i)
 		src := vals[r.Intn(len(vals))]
 		var n mb.Node
-		switch r.Intn(10) {
+		kind := r.Intn(10)
+		if nn > 30 && kind >= 3 && kind != 9 {
+			kind = r.Intn(3)
+		}
+		switch kind {
 		case 0:
 			n = mb.Node{Op: pick(r, "Relu", "Tanh", "Sigmoid", "Abs", "Sin", "Atan"), In: []string{src}}
 		case 1:
